@@ -5,6 +5,8 @@ import (
 	"go/token"
 	"go/types"
 	"sort"
+
+	"golang.org/x/tools/go/ssa"
 )
 
 // Anchors are found by type and role, not by name or position, so that
@@ -386,27 +388,103 @@ func (w *World) sinkMethod() *FuncInfo {
 }
 
 func (w *World) sinkMethodUncached() *FuncInfo {
-	// the evaluator method that takes a builder and a value of any type; failing that, the first one with a builder
-	var first *FuncInfo
-	for _, f := range w.compilerMethods() {
+	// the function of the evaluator package that takes a value of any type, returns nothing and has a
+	// strings.Builder at hand (as a parameter, or in its receiver): a method of the evaluator, or of a
+	// writer type of its own. With several candidates the one that switches on the type of the value.
+	hasBuilder := func(t types.Type) bool {
+		if namedIs(t, "strings", "Builder") {
+			return true
+		}
+		st, ok := deref(t).Underlying().(*types.Struct)
+		if !ok {
+			return false
+		}
+		for i := 0; i < st.NumFields(); i++ {
+			if namedIs(st.Field(i).Type(), "strings", "Builder") {
+				return true
+			}
+		}
+		return false
+	}
+	var cands []*FuncInfo
+	for _, f := range w.Funcs("") {
 		sig := f.Obj.Type().(*types.Signature)
-		hasBuilder, hasAny := false, false
+		if sig.Results().Len() != 0 || f.Decl.Body == nil {
+			continue
+		}
+		nAny, builder := 0, false
 		for i := 0; i < sig.Params().Len(); i++ {
-			if namedIs(sig.Params().At(i).Type(), "strings", "Builder") {
-				hasBuilder = true
+			t := sig.Params().At(i).Type()
+			if hasBuilder(t) {
+				builder = true
 			}
-			if it, ok := sig.Params().At(i).Type().(*types.Interface); ok && it.NumMethods() == 0 {
-				hasAny = true
+			if it, ok := t.(*types.Interface); ok && it.NumMethods() == 0 {
+				nAny++
 			}
 		}
-		if hasBuilder && hasAny {
-			return f
+		if rc := sig.Recv(); rc != nil && !builder && hasBuilder(rc.Type()) {
+			builder = true
 		}
-		if hasBuilder && first == nil {
-			first = f
+		if nAny == 1 && builder {
+			cands = append(cands, f)
 		}
 	}
-	return first
+	for _, f := range cands {
+		found := false
+		ast.Inspect(f.Decl.Body, func(n ast.Node) bool {
+			if _, ok := n.(*ast.TypeSwitchStmt); ok {
+				found = true
+			}
+			return !found
+		})
+		if found {
+			return f
+		}
+	}
+	if len(cands) > 0 {
+		return cands[0]
+	}
+	// failing that, the first evaluator method with a builder parameter
+	for _, f := range w.compilerMethods() {
+		sig := f.Obj.Type().(*types.Signature)
+		for i := 0; i < sig.Params().Len(); i++ {
+			if namedIs(sig.Params().At(i).Type(), "strings", "Builder") {
+				return f
+			}
+		}
+	}
+	return nil
+}
+
+// sinkValueIndex: the position of the sink's value parameter (without the receiver), -1 if none.
+func (w *World) sinkValueIndex() int {
+	f := w.sinkMethod()
+	if f == nil {
+		return -1
+	}
+	sig := f.Obj.Type().(*types.Signature)
+	for i := 0; i < sig.Params().Len(); i++ {
+		if it, ok := sig.Params().At(i).Type().(*types.Interface); ok && it.NumMethods() == 0 {
+			return i
+		}
+	}
+	return -1
+}
+
+// sinkValueArg: the value handed to the sink by a call of it in SSA form (nil if the call has another shape).
+func (w *World) sinkValueArg(c *ssa.CallCommon) ssa.Value {
+	f := w.sinkMethod()
+	i := w.sinkValueIndex()
+	if f == nil || i < 0 {
+		return nil
+	}
+	if f.Obj.Type().(*types.Signature).Recv() != nil {
+		i++
+	}
+	if i >= len(c.Args) {
+		return nil
+	}
+	return c.Args[i]
 }
 
 // truthyMethod: the evaluator method func(interface{}) bool.
